@@ -377,12 +377,14 @@ def qlLoop : Nat → Nat → Nat → QL α → Except Err (QL α)
     if st.isSmall l then .ok st else qlLoop fuel l mm st
 
 /-- body of `for (l = 0; l < 3; l++)`.  When the small-subdiagonal search falls through (`mm = 3`,
-    which needs `tst1` or `e[2]` to be ±inf/NaN) the C goes on to write `e[3]`: modelled as `ub`. -/
+    which needs `tst1` or `e[2]` to be ±inf/NaN, e.g. after an overflow on finite entries of size 1e308) the C returns
+    `REF_FAILURE` (`RAS(mm < 3, …)`, the repair `fix: ref_matrix_diag_m stops when an intermediate overflows`; before it the
+    code went on to write `e[3]`, an out-of-bounds store that this model carried as the outcome `ub`). -/
 def rowStep (l : Nat) (st : QL α) : Except Err (QL α) :=
   let h := cabs (st.getD l) +. cabs (st.getE l)
   let st := if Scalar.lt st.tst1 h then { st with tst1 := h } else st
   let mm := st.findSmall l (3 - l)
-  if mm == 3 then .error .ub
+  if mm == 3 then .error .failure
   else if mm != l then
     match qlLoop 30 l mm st with
     | .ok st => .ok (st.setD l (st.getD l +. st.f))
